@@ -28,6 +28,7 @@ type c20Pure struct {
 	Patterns  []int `json:"pattern_list"`        // permutation/subset of the five pattern kinds
 	Otherwise bool  `json:"with_otherwise"`
 	EffPanic  bool  `json:"effect_of_first_match_panics"`
+	EffNil    bool  `json:"effects_return_nil"`
 	Arity     int   `json:"adapter_arity"`
 }
 
@@ -59,6 +60,7 @@ func genC20Pure(t *simrt.Tape) c20Pure {
 	}
 	p.Otherwise = t.Bool(1, 2)
 	p.EffPanic = t.Bool(1, 4)
+	p.EffNil = !p.EffPanic && t.Bool(1, 4)
 	p.Arity = 1 + t.Choose(6)
 	return p
 }
@@ -361,6 +363,7 @@ func (sc *c20Scenario) runPure(s *simrt.Sim, h *Hist) {
 		// Either builds a fresh one per call. The probes are walked in a per-run rotation.
 		var shared *fpgo.PatternMatching
 		applied := 0 // effects applied by the current call (the patterns of the shared matcher outlive one probe)
+		lastKind := -1
 		rot := (p.TrampN*7 + p.Arity) % len(probes)
 		probes = append(append([]probe{}, probes[rot:]...), probes[:rot]...)
 		for _, pr := range probes {
@@ -374,6 +377,10 @@ func (sc *c20Scenario) runPure(s *simrt.Sim, h *Hist) {
 					if p.EffPanic && applied == 1 {
 						// fault: the user's effect itself fails; that is the caller's panic, not "no pattern accepts"
 						panic("effect-boom")
+					}
+					if p.EffNil {
+						lastKind = kind
+						return nil // an effect may return nil: that is the result, not "no match"
 					}
 					return []interface{}{kind, v}
 				}
@@ -449,6 +456,12 @@ func (sc *c20Scenario) runPure(s *simrt.Sim, h *Hist) {
 				}
 				if pan != nil {
 					bad("pattern-matching", "panic-although-a-pattern-accepts", fmt.Sprintf("%s panicked with %v, want the effect of pattern kind %d", ctx, pan, want))
+					continue
+				}
+				if p.EffNil {
+					if got != nil || applied != 1 || lastKind != want {
+						bad("pattern-matching", "nil-result-of-an-effect", fmt.Sprintf("%s, every effect returns nil: got %v after applying %d effects (last: kind %d), want nil from exactly the effect of kind %d", ctx, got, applied, lastKind, want))
+					}
 					continue
 				}
 				r, ok := got.([]interface{})
